@@ -8,8 +8,9 @@ RULE = ("engine A on gaussian.NewCalculator(...).For over window-aligned synthet
         "the harness also returns the real PDF/CDF values, from which the driver recomputes multiplier, weight selection "
         "and carry bit-exactly (Float) and compares every tick; Spec on the implementation's outputs: non-negative, no "
         "tick more than one above the tick nearest the peak, each window's total within 1 (+1e-6 relative) of the total "
-        "of the exact rates for that window's weight. Non-trivial: >= 2 windows or weights present; distinct = distinct cases.")
-ASSUMPTIONS = ["math.Exp / math.Erfc are oracles: the density and CDF values are inputs of the model (taken from the real Distribution)",
+        "of the exact rates for that window's weight, and within 1 % of the configured volume (scaled by the weight over the mean) "
+        "whenever the bell lies inside the window and is resolved by the ticks. Non-trivial: >= 2 windows or weights present; distinct = distinct cases.")
+ASSUMPTIONS = ["the density and CDF values are inputs of the bit-exact model (taken from the real Distribution) and are checked on every tick against independent computations in the driver: the closed form with libm's exp (relative 1e-9) and the Abramowitz-Stegun erf approximation (absolute 1e-6)",
                "theorems are over exact arithmetic (Q); the binary64 evaluation of the carry is modelled bit-exactly in the driver, not verified",
                "the size of the discretisation error itself (Riemann sum vs probability mass) is measured per run, not proved"]
 S = 10**9
@@ -118,5 +119,5 @@ def distribution(recs):
 
 MANIFEST = {
  "text": "For every rate sequence (exact arithmetic): the emitted total over any span equals the total of the exact rates minus the remainder still carried, which stays in [0,1) — nothing fractional is ever lost (C11_carry, C11_total_close, rem_range); non-negative rates never yield a negative request (C11_nonneg); no tick requests more than one above the tick with the highest rate (C11_peak); one window's total is within 1 of V*(w/mean w) times the ratio Riemann-sum/probability-mass (C11_volume); the weight loop terminates and selects index floor(t/window) mod len counted from Go's zero time (C11_weight_index via weightIndexLoop_spec). Tie: every tick of the real calculator recomputed bit-exactly from the real PDF/CDF values (multiplier, weight selection, carry), Spec on the real outputs.",
- "note": "Partial: exp/erfc are oracles (values taken from the real Distribution); float rounding of the carry is modelled, not verified; the magnitude of the discretisation error is measured by the driver on each run rather than bounded by a theorem.",
+ "note": "Partial: exp/erfc values come from the real Distribution and are cross-checked against the closed form (libm exp) and an erf approximation; float rounding of the carry is modelled, not verified; the magnitude of the discretisation error is measured by the driver on each run rather than bounded by a theorem.",
  "technique": "Lean 4 theorems over Q (telescoping carry, floor bounds; Mathlib) + bit-exact correspondence with oracle inputs"}
